@@ -37,14 +37,11 @@ func checkC10(c *an.Ctx) {
 	cfg.ParamDepth = 3
 
 	// C10.1: Job.Vars in CompileCommand
-	var varsStore *ssa.Store
-	an.EachInstr(cc, func(in ssa.Instruction) {
-		if st, ok := in.(*ssa.Store); ok {
-			if fa, ok := st.Addr.(*ssa.FieldAddr); ok && an.TypeField(fa) == "Job.Vars" {
-				varsStore = st
-			}
-		}
-	})
+	// (a store of its own, or a functional option handed to the job's constructor)
+	var varsStore *fieldGiven
+	if given := fieldsGivenIn(p, cc, "Job.Vars"); len(given) > 0 {
+		varsStore = &given[len(given)-1]
+	}
 	if varsStore == nil {
 		c.Und("C10.1", an.Short(cc)+":Job.Vars", cc.Pos(), "CompileCommand does not set Job.Vars")
 		return
@@ -60,7 +57,7 @@ func checkC10(c *an.Ctx) {
 	for _, site := range compileCommandSites(c, r) {
 		key := an.Short(site.fn) + ":CompileCommand(" + site.kind + "):vars"
 		argChains := cfg.Chains(ccr.arg1(site.call, "vars"))
-		base := local.Chains(varsStore.Val) // [TaskCompiler.variables < param:vars]
+		base := local.Chains(varsStore.val) // [TaskCompiler.variables < param:vars]
 		for _, b := range base {
 			for _, a := range argChains {
 				var full an.Chain
@@ -880,11 +877,11 @@ func lateResolution(c *an.Ctx, rule string) {
 			if op == nil {
 				continue
 			}
-			cont, ok := isMapCall(op)
-			if !ok {
-				continue
-			}
-			renders, sets := false, false
+			// the set that is resolved: what the loop ranges over (cont.Map()), or — when the names were collected
+			// by an earlier pass — the set whose Map() the rendering is given and on which the result is Set
+			cont, overMap := isMapCall(op)
+			var renderParams []ssa.Value
+			var setRecvs []ssa.Value
 			for b := range l.Blocks {
 				for _, in := range b.Instrs {
 					call, ok := in.(*ssa.Call)
@@ -892,17 +889,37 @@ func lateResolution(c *an.Ctx, rule string) {
 						continue
 					}
 					if an.ShortCallee(&call.Call) == "pkg/utils.RenderString" {
-						renders = true
+						if m, isMap := isMapCall(call.Call.Args[1]); isMap {
+							renderParams = append(renderParams, m)
+						} else {
+							renderParams = append(renderParams, nil)
+						}
 					}
 					if cc, ok := an.IsCallTo(call, fnSet, "(*pkg/variables.Variables).Set"); ok {
 						recv := cc.Value
 						if !cc.IsInvoke() {
 							recv = cc.Args[0]
 						}
-						if an.SameValue(recv, cont) {
-							sets = true
+						setRecvs = append(setRecvs, recv)
+					}
+				}
+			}
+			renders, sets := len(renderParams) > 0, false
+			if !overMap {
+				for _, rp := range renderParams {
+					for _, sr := range setRecvs {
+						if rp != nil && an.SameValue(rp, sr) {
+							cont = sr
 						}
 					}
+				}
+				if cont == nil {
+					continue
+				}
+			}
+			for _, sr := range setRecvs {
+				if an.SameValue(sr, cont) {
+					sets = true
 				}
 			}
 			if !renders || !sets {
